@@ -435,4 +435,204 @@ theorem keysUnder_list (cfg : Cfg) : (cs : Children) → ∀ rn ∈ cs, KeysUnde
     · exact keysUnder_list cfg rest rn h
 end
 
+theorem alookup_append {β} (q : String) (A B : List (String × β)) :
+    alookup q (A ++ B) = match alookup q A with | some v => some v | none => alookup q B := by
+  induction A with
+  | nil => simp [alookup]
+  | cons hd t ih =>
+    obtain ⟨k, v⟩ := hd
+    simp only [List.cons_append, alookup]
+    split
+    · rfl
+    · exact ih
+
+theorem alookup_none_of_keys {β} (q : String) (A : List (String × β)) (h : ∀ x ∈ A, x.1 ≠ q) : alookup q A = none := by
+  induction A with
+  | nil => rfl
+  | cons hd t ih =>
+    obtain ⟨k, v⟩ := hd
+    simp only [alookup]
+    rw [if_neg (h (k, v) (by simp))]
+    exact ih (fun x hx => h x (by simp [hx]))
+
+/-- A good name for path reasoning: not empty and free of `/`. -/
+def pathName (s : Name) : Prop := slashFree s ∧ s ≠ ""
+
+/-- The prefix the loop of a directory at `p` uses: empty at the root, `p/` below. -/
+def GoodPfx (pfx : String) : Prop := pfx = "" ∨ ∃ p, p ≠ "" ∧ pfx = p ++ "/"
+
+theorem goodPfx_ne (pfx name : String) (hn : name ≠ "") : pfx ++ name ≠ "" :=
+  append_ne_empty pfx name hn
+
+/-- Keys the cold loop over `cs` adds lie at or below `pfx ++ name'` for the name
+`name'` of one of the children. -/
+theorem coldL_keys (cfg : Cfg) (pfx : String) (all : Children) (mask : Bool) (cs : Children) (contents cs' : Contents) (d : St)
+    (h : scanChildren cfg {} pfx all cs none mask contents {} = some (cs', d))
+    (hnames : ∀ s ∈ entryNames cfg cs, pathName s) :
+    ∀ x ∈ d.newCache, ∃ name' ∈ entryNames cfg cs, Under x.1 (pfx ++ name') := by
+  intro x hx
+  obtain ⟨raw, node, name, decoded, cp, isDir, ign, cm, hm, hpre, hxc⟩ :=
+    (coldL_cache_mem cfg pfx all mask cs contents cs' d h x).mp hx
+  have hn := preDispatch_go _ _ _ _ _ _ _ _ _ _ _ _ hpre
+  have hmem : name ∈ entryNames cfg cs := by
+    simp only [entryNames, List.mem_filterMap]
+    exact ⟨(raw, node), hm, hn⟩
+  have hcp := preDispatch_go_link _ _ _ _ _ _ _ _ _ _ _ _ hpre
+  refine ⟨name, hmem, ?_⟩
+  rw [← hcp]
+  exact keysUnder_list cfg cs (raw, node) hm cp false cm _ (by rw [hcp]; exact goodPfx_ne pfx name (hnames name hmem).2) x hxc
+
+theorem not_under_other (pfx name name' q k : String) (hn : pathName name) (hn' : pathName name') (hne : name ≠ name')
+    (hq : Under q (pfx ++ name)) (hk : Under k (pfx ++ name')) : k ≠ q := by
+  intro he
+  subst he
+  exact hne (under_same_name pfx name name' k hn.1 hn'.1 hq hk)
+
+/-- LocNone: below the path of a name that no child of the directory reaches the
+handler stage with, the cold loop caches nothing. -/
+theorem coldL_locNone (cfg : Cfg) (pfx : String) (all : Children) (mask : Bool) (cs : Children) (contents cs' : Contents) (d : St)
+    (h : scanChildren cfg {} pfx all cs none mask contents {} = some (cs', d))
+    (hnames : ∀ s ∈ entryNames cfg cs, pathName s) (name : Name) (hname : pathName name)
+    (hno : ∀ raw node decoded cp isDir ign cm, (raw, node) ∈ cs →
+      preDispatch cfg {} pfx mask raw node ≠ .go name decoded cp isDir ign cm)
+    (q : String) (hq : Under q (pfx ++ name)) : alookup q d.newCache = none := by
+  apply alookup_none_of_keys
+  intro x hx
+  obtain ⟨raw, node, name', decoded, cp, isDir, ign, cm, hm, hpre, hxc⟩ :=
+    (coldL_cache_mem cfg pfx all mask cs contents cs' d h x).mp hx
+  have hn := preDispatch_go _ _ _ _ _ _ _ _ _ _ _ _ hpre
+  have hmem : name' ∈ entryNames cfg cs := by
+    simp only [entryNames, List.mem_filterMap]
+    exact ⟨(raw, node), hm, hn⟩
+  have hcp := preDispatch_go_link _ _ _ _ _ _ _ _ _ _ _ _ hpre
+  have hne : name ≠ name' := by
+    intro he
+    subst he
+    exact hno raw node decoded cp isDir ign cm hm hpre
+  have hk : Under x.1 (pfx ++ name') := by
+    rw [← hcp]
+    exact keysUnder_list cfg cs (raw, node) hm cp false cm _ (by rw [hcp]; exact goodPfx_ne pfx name' (hnames name' hmem).2) x hxc
+  exact not_under_other pfx name name' q x.1 hname (hnames name' hmem) hne hq hk
+
+theorem entryNames_cons_go (cfg : Cfg) (pfx : String) (mask : Bool) (raw : Bytes) (node : Node) (rest : Children)
+    (name decoded cp : String) (isDir : Bool) (ign : (String × Bool) × IgnoreVal) (cm : Bool)
+    (hpre : preDispatch cfg {} pfx mask raw node = .go name decoded cp isDir ign cm) :
+    entryNames cfg ((raw, node) :: rest) = name :: entryNames cfg rest := by
+  have hn := preDispatch_go _ _ _ _ _ _ _ _ _ _ _ _ hpre
+  simp [entryNames, hn]
+
+theorem entryNames_cons_sub (cfg : Cfg) (raw : Bytes) (node : Node) (rest : Children) :
+    ∀ s ∈ entryNames cfg rest, s ∈ entryNames cfg ((raw, node) :: rest) := by
+  intro s hs
+  simp only [entryNames, List.filterMap_cons]
+  split
+  · exact hs
+  · exact List.mem_cons_of_mem _ hs
+
+theorem entryNames_cons_nodup (cfg : Cfg) (raw : Bytes) (node : Node) (rest : Children)
+    (h : (entryNames cfg ((raw, node) :: rest)).Nodup) : (entryNames cfg rest).Nodup := by
+  simp only [entryNames, List.filterMap_cons] at h ⊢
+  split at h
+  · exact h
+  · exact (List.nodup_cons.mp h).2
+
+/-- LocEq: below the path of a child that reaches the handler stage, looking a
+key up in what the cold loop cached is looking it up in what that child's
+handler cached. -/
+theorem coldL_locEq (cfg : Cfg) (pfx : String) (all : Children) (mask : Bool) :
+    ∀ (cs : Children) (contents cs' : Contents) (d : St),
+      scanChildren cfg {} pfx all cs none mask contents {} = some (cs', d) →
+      (entryNames cfg cs).Nodup → (∀ s ∈ entryNames cfg cs, pathName s) →
+      ∀ raw node name decoded cp isDir ign cm, (raw, node) ∈ cs →
+        preDispatch cfg {} pfx mask raw node = .go name decoded cp isDir ign cm →
+        ∀ q, Under q cp →
+          alookup q d.newCache = alookup q (cold cfg cp false cm (linkFor all decoded name node) node).2.newCache := by
+  intro cs
+  induction cs with
+  | nil => intro _ _ _ _ _ _ raw node _ _ _ _ _ _ hm; cases hm
+  | cons c rest ih =>
+    obtain ⟨raw1, node1⟩ := c
+    intro contents cs' d h hnd hnames raw node name decoded cp isDir ign cm hm hpre q hq
+    have hnd' := entryNames_cons_nodup cfg raw1 node1 rest hnd
+    have hnames' : ∀ s ∈ entryNames cfg rest, pathName s := fun s hs => hnames s (entryNames_cons_sub cfg raw1 node1 rest s hs)
+    have hcp := preDispatch_go_link _ _ _ _ _ _ _ _ _ _ _ _ hpre
+    rw [scanChildren_cons] at h
+    cases hpre1 : preDispatch cfg {} pfx mask raw1 node1 with
+    | skip =>
+      rw [hpre1] at h
+      rcases List.mem_cons.mp hm with heq | hm'
+      · cases heq; rw [hpre1] at hpre; cases hpre
+      · exact ih contents cs' d h hnd' hnames' raw node name decoded cp isDir ign cm hm' hpre q hq
+    | put name1 e1 ign1 =>
+      rw [hpre1] at h
+      simp only at h
+      obtain ⟨d'', hr, hc⟩ := andThen_cache _ _ _ _ h
+      rw [hc]
+      simp only [ignSt, List.append_nil]
+      rcases List.mem_cons.mp hm with heq | hm'
+      · cases heq; rw [hpre1] at hpre; cases hpre
+      · exact ih _ cs' d'' hr hnd' hnames' raw node name decoded cp isDir ign cm hm' hpre q hq
+    | go name1 decoded1 cp1 isDir1 ign1 cm1 =>
+      rw [hpre1] at h
+      simp only [childBaseline_none, reuseDecision_none] at h
+      have hen := entryNames_cons_go cfg pfx mask raw1 node1 rest name1 decoded1 cp1 isDir1 ign1 cm1 hpre1
+      rw [hen] at hnd hnames
+      have hn1 : pathName name1 := hnames name1 (by simp)
+      have hnot1 : name1 ∉ entryNames cfg rest := (List.nodup_cons.mp hnd).1
+      have hcp1 := preDispatch_go_link _ _ _ _ _ _ _ _ _ _ _ _ hpre1
+      cases hsn : scanNode cfg {} cp1 false none cm1 (linkFor all decoded1 name1 node1) node1 {} with
+      | mk r dn =>
+        rw [hsn] at h
+        -- the common part once the rest of the loop is known
+        have key : ∀ d'' contents', scanChildren cfg {} pfx all rest none mask contents' {} = some (cs', d'') →
+            d.newCache = d''.newCache ++ dn.newCache →
+            alookup q d.newCache = alookup q (cold cfg cp false cm (linkFor all decoded name node) node).2.newCache := by
+          intro d'' contents' hr hc
+          rw [hc, alookup_append]
+          have hheadkeys : ∀ x ∈ dn.newCache, Under x.1 (pfx ++ name1) := by
+            intro x hx
+            rw [← hcp1]
+            have := keysUnder_node cfg node1 cp1 false cm1 (linkFor all decoded1 name1 node1)
+              (by rw [hcp1]; exact goodPfx_ne pfx name1 hn1.2) x
+            simp only [cold] at this
+            rw [hsn] at this
+            exact this hx
+          rcases List.mem_cons.mp hm with heq | hm'
+          · -- the child is the head
+            cases heq
+            rw [hpre1] at hpre
+            cases hpre
+            have hnone : alookup q d''.newCache = none := by
+              apply coldL_locNone cfg pfx all mask rest contents' cs' d'' hr hnames' name hn1
+              · intro raw' node' decoded' cp' isDir' ign' cm' hm'' hp'
+                have := preDispatch_go _ _ _ _ _ _ _ _ _ _ _ _ hp'
+                exact hnot1 (by simp only [entryNames, List.mem_filterMap]; exact ⟨(raw', node'), hm'', this⟩)
+              · rw [← hcp]; exact hq
+            rw [hnone]
+            simp only [cold]
+            rw [hsn]
+          · -- the child is in the rest
+            have hmem : name ∈ entryNames cfg rest := by
+              have := preDispatch_go _ _ _ _ _ _ _ _ _ _ _ _ hpre
+              simp only [entryNames, List.mem_filterMap]
+              exact ⟨(raw, node), hm', this⟩
+            have hne : name ≠ name1 := fun he => hnot1 (he ▸ hmem)
+            rw [ih contents' cs' d'' hr hnd' hnames' raw node name decoded cp isDir ign cm hm' hpre q hq]
+            have hhead : alookup q dn.newCache = none := by
+              apply alookup_none_of_keys
+              intro x hx
+              exact not_under_other pfx name name1 q x.1 (hnames' name hmem) hn1 hne (by rw [← hcp]; exact hq) (hheadkeys x hx)
+            rw [hhead]
+            cases alookup q (cold cfg cp false cm (linkFor all decoded name node) node).2.newCache <;> rfl
+        cases r with
+        | abort => simp at h
+        | notExist =>
+          simp only at h
+          obtain ⟨d'', hr, hc⟩ := andThen_cache _ _ _ _ h
+          exact key d'' contents hr (by rw [hc]; simp [add, ignSt])
+        | entry e =>
+          simp only at h
+          obtain ⟨d'', hr, hc⟩ := andThen_cache _ _ _ _ h
+          exact key d'' _ hr (by rw [hc]; simp [add, ignSt])
+
 end Mutagen.Proofs.ScanCold
